@@ -54,11 +54,29 @@ fn undefined_variables_in_opaque_value(
             }
         }
         ast::Value::Object(fields) => {
+            unique_object_fields(diagnostics, fields);
             for (_, field_value) in fields {
                 undefined_variables_in_opaque_value(diagnostics, field_value, var_defs);
             }
         }
         _ => {}
+    }
+}
+
+/// Input Object Field Uniqueness: an object literal may not name the same field twice,
+/// whatever type it is given to.
+fn unique_object_fields(diagnostics: &mut DiagnosticList, fields: &[(crate::Name, Node<ast::Value>)]) {
+    for (index, (name, value)) in fields.iter().enumerate() {
+        if let Some((_, original)) = fields[..index].iter().find(|(other, _)| other == name) {
+            diagnostics.push(
+                value.location(),
+                DiagnosticData::UniqueInputValue {
+                    name: name.clone(),
+                    original_definition: original.location(),
+                    redefined_definition: value.location(),
+                },
+            );
+        }
     }
 }
 
@@ -248,27 +266,15 @@ pub(crate) fn value_of_correct_type(
         }
         ast::Value::Object(obj) => match &type_definition {
             schema::ExtendedType::Scalar(scalar) if !scalar.is_built_in() => {
-                // A custom scalar accepts any object literal,
-                // but the variables used inside it must still be defined.
+                // A custom scalar accepts any object literal, but its fields must be unique
+                // and the variables used inside it must still be defined.
+                unique_object_fields(diagnostics, obj);
                 for (_, value) in obj {
                     undefined_variables_in_opaque_value(diagnostics, value, var_defs);
                 }
             }
             schema::ExtendedType::InputObject(input_obj) => {
-                // Input Object Field Uniqueness
-                for (index, (name, value)) in obj.iter().enumerate() {
-                    if let Some((_, original)) = obj[..index].iter().find(|(other, _)| other == name)
-                    {
-                        diagnostics.push(
-                            value.location(),
-                            DiagnosticData::UniqueInputValue {
-                                name: name.clone(),
-                                original_definition: original.location(),
-                                redefined_definition: value.location(),
-                            },
-                        );
-                    }
-                }
+                unique_object_fields(diagnostics, obj);
 
                 let undefined_field = obj
                     .iter()
